@@ -1,6 +1,6 @@
 (** C08 correspondence entries. *)
 From Coq Require Import String.
-From BV Require Import Base.Prelude Base.Codec Glob.Ast Glob.Parse Glob.Regex Glob.Translate Glob.Sem Glob.Known.
+From BV Require Import Base.Prelude Base.Codec Glob.Ast Glob.Parse Glob.Regex Glob.Translate Glob.Sem Glob.Known Glob.Expand.
 
 Definition has_opt (o : str) (c : N) : bool := mem c o.
 
@@ -73,5 +73,18 @@ Definition entry_glob_ms (a : list str) : list str :=
       let ci := has_opt o 105 in
       let ps := match q with [] => [PPat p] | _ => [PLit q; PPat p] end in
       [model_bits ext ci ps ss; spec_bits ext ci ps ss; spec_ml_bits ext ci ps ss; class_flags ext p]
+  | _ => []
+  end.
+
+(** glob_fs: <opts> <pattern> <name>* -> model words ; "||" ; specification words
+    opts: e extglob, i nocaseglob, d dotglob *)
+Definition entry_glob_fs (a : list str) : list str :=
+  match a with
+  | o :: p :: names =>
+      let ext := has_opt o 101 in
+      let ci := has_opt o 105 in
+      let dotglob := has_opt o 100 in
+      (match expand_model ext ci dotglob names p with Some l => l | None => [lit "?unmodelled"] end)
+        ++ [[124%N; 124%N]] ++ expand_spec_words ext ci dotglob names p
   | _ => []
   end.
